@@ -525,6 +525,11 @@ func init() {
 		done(ex.B.FToBits(termOf(args[0])))
 	})
 
+	// resource.timeoutAlarm only logs when an update takes longer than a second: replaced by a no-op disarm function
+	reg("github.com/smart-core-os/sc-golang/pkg/resource.timeoutAlarm", func(ex *Exec, g *G, fn *ssa.Function, args []Value, done func(Value)) {
+		done(FuncV{Native: &NativeFn{Name: "disarm", Call: func(ex *Exec, g *G, args []Value) Value { return nil }}})
+	})
+
 	// ---- math/rand: an opaque source of arbitrary bytes ----
 	reg("math/rand.NewSource", func(ex *Exec, g *G, fn *ssa.Function, args []Value, done func(Value)) {
 		done(IfaceV{V: &RngObj{}})
